@@ -95,6 +95,9 @@ def gen_cases(ctx):
     add({"has_sup": True, "sup": [{"k": "dir", "e": "B", "d": 1}, {"k": "any", "d": 3}, {"k": "retry", "n": 2, "t": -1}]})
     add({"has_role": True, "role": ""})
     add({"init": -5})
+    add({"deps": [["n1", ""]]})
+    add({"deps": [["d1", "p3"], ["e1", ""], ["o1", "x"]]})
+    add({"deps": [["l1", "70000"], ["n1", ""], ["d2", "p1"]], "stash": True})
     for mx in (0, -3, 1, U32_MAX - 1, U32_MAX):
         add({"has_re": True, "re_mode": 1, "re_max": mx})
 
@@ -136,6 +139,11 @@ def gen_cases(ctx):
             c["has_role"], c["role"] = True, rng.choice(["payments", "ml", "edge", "payments", ""])
         nd = rng.choice([0, 0, 1, 2])
         c["deps"] = [["d%d" % (k + 1), "p%d" % rng.randint(1, 9)] for k in range(nd)]
+        # handle-style dependencies whose serialized form is nil / empty / one byte / large, mixed with ordinary ones
+        if rng.random() < 0.45:
+            special = [["n1", ""], ["e1", ""], ["o1", rng.choice("xyz")], ["l1", str(rng.choice([2, 4096, 70000]))]]
+            c["deps"] = c["deps"] + rng.sample(special, rng.randint(1, 3))
+            rng.shuffle(c["deps"])
         c["init"] = rng.choice([0, 0, 1, 250000000, 7 * 10 ** 9, -1, 10 ** 9 + 1])
         c["no_reloc"] = rng.random() < 0.25
         add(c)
@@ -159,13 +167,38 @@ def flat_reent(p):
     return [1, p["re_mode"], p["re_max"]] if p["has_re"] else [0, 0, 0]
 
 
+DEP_IDS = {"n1": 101, "e1": 102, "o1": 103, "l1": 104}
+DEP_TYPES = {"*actor.VerifC37Dep": 1, "*actor.VerifC37Nil": 2, "*actor.VerifC37Empty": 3, "*actor.VerifC37One": 4, "*actor.VerifC37Large": 5}
+
+
+def dep_id_num(i):
+    return DEP_IDS[i] if i in DEP_IDS else int(i[1:])
+
+
 def dep_num(d):
     """(id, type, payload) of a probed dependency as numbers; None when it is not one of ours"""
     try:
-        body = json.loads(bytes.fromhex(d[2]).decode())
-        return [int(d[0][1:]), 1, int(body["p"][1:])] if body.get("id") == d[0] and d[1] == "*actor.VerifC37Dep" else None
+        if d[1] == "*actor.VerifC37Dep":
+            body = json.loads(bytes.fromhex(d[2]).decode())
+            return [dep_id_num(d[0]), 1, int(body["p"][1:])] if body.get("id") == d[0] else None
+        ln = int(re.match(r"len=(\d+);", d[2]).group(1))
+        return [dep_id_num(d[0]), DEP_TYPES[d[1]], ln]
     except Exception:
         return None
+
+
+def dep_model(d):
+    """(id, type, payload) the model carries for a configured dependency [id, payload]"""
+    i, p = d
+    if i == "n1":
+        return [101, 2, 0]
+    if i == "e1":
+        return [102, 3, 0]
+    if i == "o1":
+        return [103, 4, 1]
+    if i == "l1":
+        return [104, 5, int(p)]
+    return [int(i[1:]), 1, int(p[1:])]
 
 
 def flat_pid(p):
@@ -254,8 +287,9 @@ def coq_config(c):
         items.append("(WithRole %d%%nat)" % ROLES[c["role"]])
     if c["deps"]:
         ds = "dn"
-        for d in reversed(c["deps"]):
-            ds = "(dc (mkDep %d%%nat 1%%nat (zc %d zn)) %s)" % (int(d[0][1:]), int(d[1][1:]), ds)
+        for d in reversed(sorted(c["deps"], key=lambda x: x[0])):
+            m = dep_model(d)
+            ds = "(dc (mkDep %d%%nat %d%%nat (zc %d zn)) %s)" % (m[0], m[1], m[2], ds)
         items.append("(WithDependencies %s)" % ds)
     if c["init"] != 0:
         items.append("(WithInitTimeout (%d))" % c["init"])
